@@ -192,6 +192,12 @@ func (w *W) Take() bool {
 // First reports whether this is worker 0 (for tiny serial legs).
 func (w *W) First() bool { return w.Shard == 0 }
 
+// Eval counts executions that are judged outside a Kind (e.g. one per explored schedule).
+func (w *W) Eval(n int64) {
+	w.res.Evals += n
+	atomic.AddInt64(&w.progress, n)
+}
+
 func (w *W) State(n int64) { w.res.States += n }
 func (w *W) Trans(n int64) { w.res.Transitions += n }
 func (w *W) Trace(n int64) { w.res.Traces += n }
@@ -405,6 +411,13 @@ func workerMain(args []string) {
 		fmt.Fprintln(os.Stderr, "write result:", err)
 		os.Exit(2)
 	}
+}
+
+// FailRawParent records a failure found by the parent itself (Check.Post).
+func (r *Result) FailRawParent(kind string, c interface{}, f *Fail) {
+	raw, _ := json.Marshal(c)
+	r.Fails = append(r.Fails, failRec{Kind: kind, Key: f.Key, Msg: f.Msg, Case: raw})
+	r.FailCount++
 }
 
 // Parent is the merged view handed to Check.Post.
